@@ -81,7 +81,7 @@ class Acc(object):
         k = self._sigs.get(sig, 0)
         self._sigs[sig] = k + 1
         # keep at most 3 per signature so that rare signatures are not crowded out
-        if k < 3 and len(self.violations) < self._mv * 4:
+        if (k < 3 and len(self.violations) < self._mv * 4) or (k == 0 and len(self.violations) < 5000):
             self.violations.append({'sig': sig, 'desc': desc, 'case': case})
 
     def add(self, key, n=1):
